@@ -126,6 +126,14 @@ func interpolateMapValues[K comparable, V any, M ~map[K]V](tf stringTransformer,
 // interpolateMap applies interpolateAny over both keys and values of any type
 // of map. The map is altered in-place.
 func interpolateMap[K comparable, V any, M ~map[K]V](tf stringTransformer, m M) error {
+	// Interpolate everything first, then update the map. Inserting renamed keys
+	// while ranging over m could cause them to be visited (and interpolated)
+	// a second time.
+	type entry struct {
+		k, intk K
+		intv    V
+	}
+	entries := make([]entry, 0, len(m))
 	for k, v := range m {
 		// We interpolate both keys and values.
 		intk, err := interpolateAny(tf, k)
@@ -138,12 +146,17 @@ func interpolateMap[K comparable, V any, M ~map[K]V](tf stringTransformer, m M) 
 		if err != nil {
 			return err
 		}
+		entries = append(entries, entry{k: k, intk: intk, intv: intv})
+	}
 
-		// If the key changed due to interpolation, delete the old key.
-		if k != intk {
-			delete(m, k)
+	// If a key changed due to interpolation, delete the old key.
+	for _, e := range entries {
+		if e.k != e.intk {
+			delete(m, e.k)
 		}
-		m[intk] = intv
+	}
+	for _, e := range entries {
+		m[e.intk] = e.intv
 	}
 	return nil
 }
